@@ -15,7 +15,24 @@ from .store_checks import run_store
 
 def run(ctx):
     ctx.rule = c07.RULE + '; C10 reports accepted invalid additions and deviations caused by a rejected addition; plus merge faults'
+    if ctx.replay:
+        import json
+        from pathlib import Path
+
+        case = json.loads(Path(ctx.replay).read_text())['case']
+        if 'codec' in case:
+            from . import c03
+
+            for f, what, detail in c03.run_case(case['codec']):
+                if f == 'refused-add':
+                    ctx.violation(f'{f}:{what}', detail, case)
+            return
     run_store(ctx, 'C10', seed_offset=10)
+    if not ctx.replay:
+        # a further kind of rejected addition - a species the file has no position for - lives in the codec family
+        from . import c03
+
+        c03.run_refused(ctx)
     from . import merge_checks
 
     merge_checks.run_merge(ctx, 'C10')
